@@ -24,7 +24,7 @@ TRUSTED = [
 ASSUMPTIONS = [
     'key column values are non-NULL (primary-key columns) and compared as integers in the lemma',
     'programs read attributes, references and collections, optionally after unflushed collection / reference changes; no concurrent writers',
-    'SQLite only (its translator uses row-value syntax, so the OR-of-ANDs shape is exercised only by the lemma and the direct correspondence)',
+    'SQLite only; its translator sets row_value_syntax = False, so end to end only the "=", IN and OR-of-ANDs shapes occur; the row-value shape is covered by the lemma, the structural correspondence and the SQL-semantics validation (SQLite executes row values when given them)',
 ]
 RULE = ('lemma tie: exhaustive shapes ncols 1..3 x batch 1..4 x start 0..2 x row_value_syntax, plus SQL-semantics cases on SQLite; differential: seeded random '
         'programs (0-3 groups, 0-6 students, 0-4 courses with a composite key, random enrolments; 3-9 steps: get / select / reference / attribute / '
